@@ -27,6 +27,8 @@ RM = {
         '(("Me_4" (bin concat (col "Me_1") (col "Me_1A"))))) ("d1#Me_2")))' % J,
     11: '(join inner ((DS_1 (ds DS_1))) _ (keep (calc (filter %s (bin eq (col "Id_2") (const (s "B")))) '
         '(("Me_2" (bin concat (col "Me_2") (const (s "_NEW")))))) ("Me_1" "Me_2")))' % J,
+    # apply d1 || d2  ==  the operator on every pair of equally named measures, only those measures kept
+    12: '(join inner ((d1 (ds DS_1)) (d2 (ds DS_2))) _ (keep (calc %s (("Me_2" (bin concat (col "d1#Me_2") (col "d2#Me_2"))))) ("Me_2")))' % J,
 }
 
 # hand-made regression corpus: (label, vtl, sx, env)
@@ -154,6 +156,8 @@ def classify(case, verdict, eng_out):
     if full_nary_pattern(case) and what in ('engine-duplicate-keys', 'keys', 'value'):
         return 'full_join:n-ary:key-absent-from-first-operand-present-in-two-later-operands'
     head = '%s_join:%dops:%s' % (case['kind'], case['nops'], case['struct'])
+    if case.get('variant', 'plain') != 'plain':
+        head += ':' + case['variant']
     if case.get('corpus'):
         head = 'corpus:' + case['label']
     if what == 'valid-join-rejected':
@@ -184,7 +188,7 @@ def replay_dict(c, v, d, e, a, n):
     return {'script': c['vtl'], 'structures': G.structures(c['env']),
             'env': {k: {'ids': x['ids'], 'meas': x['meas'], 'rows': [[str(y) if isinstance(y, __import__('fractions').Fraction) else y for y in r] for r in x['rows']]}
                     for k, x in c['env'].items()},
-            'meta': {k: c.get(k) for k in ('kind', 'struct', 'nops', 'using', 'body', 'ambiguous_ref', 'must_accept', 'label', 'corpus')},
+            'meta': {k: c.get(k) for k in ('kind', 'struct', 'nops', 'using', 'body', 'variant', 'ambiguous_ref', 'must_accept', 'label', 'corpus')},
             'sx': c['sx'], 'model_answer': a, 'engine': [str(x)[:800] for x in e], 'verdict': v, 'detail': str(d)[:600], 'occurrences': n}
 
 
@@ -250,7 +254,7 @@ def main(ck):
              'aliases': [True] * len(env), 'overlap': 'partial'}
         c.update(meta)
         cases.append(c)
-    n_gen = int(os.environ.get('VERIF_N', 260 if q else 3600))
+    n_gen = int(os.environ.get('VERIF_N', 260 if q else 2400))
     for i in range(n_gen):
         cases.append(jg.case(must_resolve=(i % 12 != 0)))
     res = run_cases(ck, cases)
@@ -302,8 +306,8 @@ def main(ck):
                'identifiers, numbers exact-or-1e-9 relative, component names and roles compared, types/nullability not compared)',
                'stand-in parser harness/vtlstub for the script text',
                'modelled not verified: DuckDB evaluation of the generated SQL')
-    ck.assumptions += ['VTL join semantics as restated in lean/VtlModel/Sem/Join.lean, validated against the Reference-Manual examples RM006-RM011 '
-                       '(apply clause RM012, aggr body, attributes / viral attributes and the VTL 2.2 nvl join clause are not modelled)',
+    ck.assumptions += ['VTL join semantics as restated in lean/VtlModel/Sem/Join.lean, validated against the Reference-Manual examples RM006-RM012 '
+                       '(apply is modelled as the equivalent calc+keep; aggr body, attributes / viral attributes and the VTL 2.2 nvl join clause are not modelled)',
                        'well-typed scripts (cases rejected by semantic analysis are counted, not compared)',
                        'a `using` key that is a measure must belong to the first (reference) operand']
 
